@@ -760,7 +760,7 @@ func vC01MidCase(rnd *rand.Rand, r *Resolver, tr *vC01Trace) {
 	// ---- tampering ----
 	tampers := []int{0, 0, 0, 1, 1, 2}[rnd.Intn(6)]
 	for i := 0; i < tampers; i++ {
-		switch []int{0, 1, 1, 2, 3, 4, 5, 6, 7, 8, 9, 10, 11, 12}[rnd.Intn(14)] {
+		switch []int{0, 1, 1, 2, 3, 4, 4, 4, 5, 6, 7, 8, 9, 10, 11, 12}[rnd.Intn(16)] {
 		case 0: // forged data signed by a key that merely claims the zone's name
 			if z.signed {
 				ak := x.attackerKey(att, z.name, 256)
@@ -822,10 +822,17 @@ func vC01MidCase(rnd *rand.Rand, r *Resolver, tr *vC01Trace) {
 			for _, rr := range append(append([]dns.RR{}, resp.Answer...), resp.Ns...) {
 				if s, ok := rr.(*dns.RRSIG); ok {
 					for {
-						s.SignerName = []string{x.sub("evil", z.name), "tld.", ".", qname, "other."}[rnd.Intn(5)]
+						s.SignerName = []string{x.sub("evil", z.name), x.sub("evil", z.name), "tld.", ".", qname, "a." + qname, "other.", "evil."}[rnd.Intn(8)]
 						if !strings.EqualFold(s.SignerName, z.name) {
 							break
 						}
+					}
+					// the parent side has something to say about that name: no DS, with a denial
+					fake := s.SignerName
+					if x.ds[vC01StoreKey(fake, dns.TypeDS, false)] == nil && rnd.Intn(2) == 0 {
+						dm := x.dsMsg(fake)
+						x.ds[vC01StoreKey(fake, dns.TypeDS, false)] = dm
+						x.ds[vC01StoreKey(fake, dns.TypeDS, true)] = dm
 					}
 					genuine = false
 				}
